@@ -4,7 +4,7 @@
 set -u
 ID=$1; MK=$2; ROUND=${3:-1}
 BASE=fd6dda3
-if [ "$ROUND" = "3" ]; then WT=/tmp/wt3/$ID; OUT=/tmp/out3-$ID/$MK; DST=/verif/seeded/$ID-r3$MK; BASE=367d150; elif [ "$ROUND" = "2" ]; then WT=/tmp/wt2/$ID; OUT=/tmp/out2-$ID/$MK; DST=/verif/seeded/$ID-r2$MK; else WT=/tmp/wt/$ID; OUT=/tmp/out-$ID/$MK; DST=/verif/seeded/$ID-$MK; fi
+if [ "$ROUND" -ge 4 ]; then WT=/tmp/wt$ROUND/$ID; OUT=/tmp/out$ROUND-$ID/$MK; DST=/verif/seeded/$ID-r$ROUND$MK; BASE=367d150; elif [ "$ROUND" = "3" ]; then WT=/tmp/wt3/$ID; OUT=/tmp/out3-$ID/$MK; DST=/verif/seeded/$ID-r3$MK; BASE=367d150; elif [ "$ROUND" = "2" ]; then WT=/tmp/wt2/$ID; OUT=/tmp/out2-$ID/$MK; DST=/verif/seeded/$ID-r2$MK; else WT=/tmp/wt/$ID; OUT=/tmp/out-$ID/$MK; DST=/verif/seeded/$ID-$MK; fi
 [ -d "$WT" ] || git -C /repo worktree add --detach "$WT" $BASE -q
 git -C "$WT" checkout -q -- . ; git -C "$WT" clean -fdq
 DEMO=$(ls $OUT/demo.py $OUT/test_demo.py 2>/dev/null | head -1)
